@@ -1218,6 +1218,170 @@ impl<'a> Exec<'a> {
     }
 }
 
+impl<'a> Exec<'a> {
+    /// C entry points fed hostile text. Oracles: nothing panics across the boundary (a panic in an
+    /// extern "C" function aborts the process - caught by the worker pool), error messages are
+    /// NUL-terminated inside the caller's buffer, results are "error" or a handle that works.
+    pub fn op_hostile_c(&mut self, what: &str, tag: &str, data: &str, buf_len: usize) -> VResult<()> {
+        let ctok = match self.ctx.ctok.as_ref() {
+            Some(c) => c.clone(),
+            None => return Ok(()),
+        };
+        let nv = self.ctx.n_vocab();
+        let init = ctok.init(&self.ctx.world, false);
+        let ctag = match CString::new(tag) {
+            Ok(c) => c,
+            Err(_) => return Ok(()),
+        };
+        let cdata = match CString::new(data) {
+            Ok(c) => c,
+            Err(_) => return Ok(()),
+        };
+        // message buffer between canaries
+        let mut buf = vec![0x7eu8; buf_len + 16];
+        let msg_ptr = unsafe { buf.as_mut_ptr().add(8) } as *mut std::ffi::c_char;
+        let check_buf = |me: &Exec, buf: &Vec<u8>, used: bool| -> VResult<()> {
+            if buf[..8].iter().any(|b| *b != 0x7e) || buf[8 + buf_len..].iter().any(|b| *b != 0x7e) {
+                return Err(me.viol(
+                    "caller_buffer_bounds",
+                    "message_buffer_overrun",
+                    format!("{what}: wrote outside the {buf_len}-byte message buffer"),
+                ));
+            }
+            if used && buf_len > 0 && !buf[8..8 + buf_len].contains(&0) {
+                return Err(me.viol(
+                    "caller_buffer_bounds",
+                    "message_not_terminated",
+                    format!("{what}: message in the {buf_len}-byte buffer is not NUL-terminated"),
+                ));
+            }
+            Ok(())
+        };
+        self.stats.fault("hostile_c_input");
+        match what {
+            "validate" => {
+                let rc = unsafe { llg_validate_grammar(&init, ctag.as_ptr(), cdata.as_ptr(), msg_ptr, buf_len) };
+                check_buf(self, &buf, true)?;
+                if !(-1..=1).contains(&rc) {
+                    return Err(self.viol("c_result", "validate_rc", format!("llg_validate_grammar returned {rc}")));
+                }
+                self.ev(format!("hostile validate rc={rc}"));
+            }
+            "matcher" => {
+                let p = unsafe { llg_new_matcher(&init, ctag.as_ptr(), cdata.as_ptr()) };
+                if p.is_null() {
+                    return Err(self.viol("c_result", "new_matcher_null", "llg_new_matcher returned null".into()));
+                }
+                let mut m = MH::C(CMatcher {
+                    p,
+                    n_vocab: nv,
+                    ctok: ctok.clone(),
+                });
+                let err = m.is_error();
+                if !err {
+                    // a handle that was built must work: a few honest steps
+                    for _ in 0..4 {
+                        if m.is_stopped() {
+                            break;
+                        }
+                        match m.compute_mask(nv) {
+                            Ok(mask) => {
+                                let b = set_bits(&mask);
+                                if b.is_empty() {
+                                    break;
+                                }
+                                if let Err(e) = m.consume_tokens(&[b[b.len() / 2]]) {
+                                    let c = classify_err(&e.to_string());
+                                    if c == ErrClass::Misuse || c == ErrClass::Other {
+                                        return Err(self.viol(
+                                            "mask_token_rejected",
+                                            "commit_rejected_mask_token",
+                                            format!("hostile grammar accepted at construction; mask-allowed token rejected: {}", short(&e.to_string())),
+                                        ));
+                                    }
+                                    break;
+                                }
+                            }
+                            Err(e) => {
+                                let c = classify_err(&e.to_string());
+                                if c == ErrClass::Panic {
+                                    return Err(self.viol(
+                                        "no_internal_panic",
+                                        "panic:mask",
+                                        format!("mask on h0 (hostile grammar accepted at construction) failed with an internal panic: {}", short(&e.to_string())),
+                                    ));
+                                }
+                                break;
+                            }
+                        }
+                    }
+                } else {
+                    self.stats.probe("hostile_input_rejected_with_error");
+                }
+                self.ev(format!("hostile matcher err={err}"));
+            }
+            "constraint" => {
+                let p = llg_new_constraint_any(&init, ctag.as_ptr(), cdata.as_ptr());
+                if p.is_null() {
+                    return Err(self.viol("c_result", "new_constraint_null", "llg_new_constraint_any returned null".into()));
+                }
+                let mut c = CConstraint {
+                    p,
+                    n_vocab: nv,
+                    ctok: ctok.clone(),
+                };
+                let e = c.err();
+                if e.is_some() {
+                    self.stats.probe("hostile_input_rejected_with_error");
+                }
+                self.ev(format!("hostile constraint err={}", e.is_some()));
+            }
+            "stop" => {
+                let toks = [self.ctx.world.eos()];
+                let p = unsafe {
+                    llg_new_stop_controller(&*ctok.tok, toks.as_ptr(), 1, cdata.as_ptr(), msg_ptr, buf_len)
+                };
+                check_buf(self, &buf, p.is_null())?;
+                if !p.is_null() {
+                    let mut len = 0usize;
+                    let mut st = false;
+                    for t in [b'a' as u32, b'b' as u32, 0x80, b'c' as u32] {
+                        let _ = llg_stop_commit_token(unsafe { &mut *p }, t, &mut len, &mut st);
+                    }
+                    unsafe { llg_free_stop_controller(p) };
+                } else {
+                    self.stats.probe("hostile_input_rejected_with_error");
+                }
+                self.ev(format!("hostile stop null={}", p.is_null()));
+            }
+            "tokenizer_json" => {
+                let init = LlgTokenizerInit {
+                    vocab_size: (data.len() % 600) as u32,
+                    tok_eos: (data.len() % 7) as u32,
+                    token_lens: std::ptr::null(),
+                    token_bytes: std::ptr::null(),
+                    tokenizer_json: cdata.as_ptr(),
+                    tokenize_assumes_string: false,
+                    tokenize_fn: None,
+                    use_approximate_greedy_tokenize_fn: true,
+                    tokenize_user_data: std::ptr::null(),
+                    slices: std::ptr::null(),
+                };
+                let p = unsafe { llg_new_tokenizer(&init, msg_ptr, buf_len) };
+                check_buf(self, &buf, p.is_null())?;
+                if !p.is_null() {
+                    unsafe { llg_free_tokenizer(p) };
+                } else {
+                    self.stats.probe("hostile_input_rejected_with_error");
+                }
+                self.ev(format!("hostile tokenizer_json null={}", p.is_null()));
+            }
+            _ => {}
+        }
+        Ok(())
+    }
+}
+
 pub fn regex_escape(s: &str) -> String {
     let mut r = String::new();
     for c in s.chars() {
